@@ -115,23 +115,26 @@ def replay_population(col, item):
     times = {f[0]: (f[1], f[2]) for f in files}
     tree = Tree(files, emb, layout, style)
     try:
-        fs = tree.fileset()
+        if opts.get("zip"):
+            fs, ids_of, path_of = tree.zipped()           # the same tree inside a zip archive (fsspec ZipFileSystem)
+        else:
+            fs, ids_of, path_of = tree.fileset(), tree.ids, tree.path_of.get
         n = 0
         for q in case["qs"]:
             s, e, xn, xp, white, black, exp = q
             n += 1
             if style.endswith("-notag") and (white or black):
                 continue        # the template has no {tag}: placeholder filters have nothing to act on
-            fs.exclude_files([tree.path_of[i] for i in xn])
+            fs.exclude_files([path_of(i) for i in xn])
             fs.exclude_times([(emb.t(a), emb.t(b)) for a, b in xp] or None)
             flt = filters_of(white, black)
             variant = n % 3
             abstract = {"F": case["F"], "query": {"s": s, "e": e, "xnames": xn, "xperiods": xp,
                                                    "white": white, "black": black}}
             concrete = {"embedding": emb_name, "layout": layout, "style": style, "template": tree.tmpl,
-                        "end_variant": variant}
+                        "end_variant": variant, "file_system": "zip" if opts.get("zip") else "local"}
             try:
-                got = tree.ids(call_find(tree, fs, emb, s, e, flt, end_variant=variant))
+                got = ids_of(call_find(tree, fs, emb, s, e, flt, end_variant=variant))
             except Exception as ex:
                 col.violation(fingerprint("find-raises-" + type(ex).__name__, q),
                               {"abstract": abstract, "concrete": concrete, "expected": sorted(exp),
@@ -360,10 +363,11 @@ def run(ctx):
     for n, c in enumerate(cases):
         if quick:
             emb_name, layout = six[n % len(six)]
-            items.append((c, emb_name, layout, pick_style(styles_for(c, emb_name), layout, n), {}))
+            items.append((c, emb_name, layout, pick_style(styles_for(c, emb_name), layout, n), {"zip": n % 5 == 3}))
         else:
             for k, (emb_name, layout) in enumerate(six):
-                items.append((c, emb_name, layout, pick_style(styles_for(c, emb_name), layout, n + k), {"contains": k % 3 == 0}))
+                items.append((c, emb_name, layout, pick_style(styles_for(c, emb_name), layout, n + k),
+                              {"contains": k % 3 == 0, "zip": (n + k) % 7 == 3}))
     pmap(ctx, replay_population, items)
     ctx.traces += len(items)
     ctx.sample({"population": cases[-1]["F"], "first_queries_with_oracle": cases[-1]["qs"][:3],
